@@ -831,7 +831,8 @@ class Pile(Widget, WidgetContainerMixin, WidgetContainerListContentsMixin):
         size: tuple[()] | tuple[int] | tuple[int, int],
         focus: bool = False,
     ) -> SolidCanvas | CompositeCanvas:
-        _widths, heights, size_args = self.get_rows_sizes(size, focus)
+        widths, heights, size_args = self.get_rows_sizes(size, focus)
+        maxcol = max(widths, default=0)
 
         combinelist = []
         for i, (height, w_size, (w, _)) in enumerate(zip(heights, size_args, self.contents)):
@@ -839,6 +840,10 @@ class Pile(Widget, WidgetContainerMixin, WidgetContainerListContentsMixin):
             canv = None
             if height > 0:
                 canv = w.render(w_size, focus=focus and item_focus)
+                if not w_size and canv.cols() != maxcol:
+                    # a fixed widget knows nothing about the width of the pile: pad or trim it
+                    canv = CompositeCanvas(canv)
+                    canv.pad_trim_left_right(0, maxcol - canv.cols())
 
             if canv:
                 combinelist.append((canv, i, item_focus))
